@@ -570,8 +570,11 @@ public:
         std::string only = o.get("planner");
         for (auto &i : planners::geometric())
         {
-            if (i.threaded != (o.prop == "C19"))
-                continue;  // threaded planners run under the scheduler only (C19-B), never with free-running threads
+            // threaded planners run under the scheduler only, never with free-running threads: C19-B, and the separate
+            // scheduled share of C03 (--threaded 1: interrupt / resume / clear histories of PRM, SPARS, SPARStwo, pRRT, pSBL,
+            // CForest, AnytimePathShortening with every thread switch decided by the seeded scheduler)
+            if (i.threaded != (o.prop == "C19" || o.get("threaded") == "1"))
+                continue;
             if (!only.empty() && i.name != only)
                 continue;
             if (o.prop == "C04" && !costAware(i.name))
@@ -626,6 +629,13 @@ public:
             return plan;
         }
         auto el = eligible(o);
+        if (el.empty())
+        {
+            fprintf(stderr, "no planner of this run's share matches --planner %s\n", o.get("planner").c_str());
+            Json plan = Json::object();
+            plan["kind"] = "none";
+            return plan;
+        }
         // round-robin over planners so every planner gets its share, seed decides the rest
         std::string planner = el[(size_t)(base % (long)el.size())];
         const Specs &sp = g_specs[planner];
@@ -679,7 +689,8 @@ public:
             obj["type"] = sp.optimizing ? (g.chance(0.8) ? "length" : "none") : (g.chance(0.2) ? "length" : "none");
         plan["objective"] = obj;
 
-        if (o.prop == "C19")
+        const bool threadedPlanner = planners::findGeometric(planner) && planners::findGeometric(planner)->threaded;
+        if (o.prop == "C19" || threadedPlanner)
         {
             Json sch = Json::object();
             sch["seed"] = (long)g.range(1, 1000000000);
@@ -787,6 +798,11 @@ public:
                     Json op = Json::object();
                     op["op"] = "newquery";
                     op["how"] = g.pick(std::vector<std::string>{"clear-then-set", "set-then-clear", "clearquery-then-set"});
+                    // the roadmap planners override setProblemDefinition() to forget the old query themselves (it calls
+                    // their clearQuery()): for them the bare switch to another problem definition is a complete history op
+                    static const std::set<std::string> setForgetsQuery = {"PRM", "PRMstar", "LazyPRM", "LazyPRMstar", "SPARS", "SPARStwo"};
+                    if (setForgetsQuery.count(planner) && g.chance(0.4))
+                        op["how"] = "set-only";
                     op["query"] = cleared ? 0 : 1;
                     ops.push(op);
                     cleared = !cleared;
@@ -1383,6 +1399,12 @@ sim::CaseResult PlanSim::runSolset(const sim::Options &, const Json &plan)
 
 sim::CaseResult PlanSim::run(const sim::Options &o, const Json &plan)
 {
+    if (plan.gets("kind") == "none")
+    {
+        sim::CaseResult none;
+        none.sig = "none";
+        return none;
+    }
     if (plan.gets("kind") == "solset")
         return runSolset(o, plan);
     if (plan.gets("kind") == "simplify")
@@ -1755,13 +1777,18 @@ sim::CaseResult PlanSim::run(const sim::Options &o, const Json &plan)
                     planner->clearQuery();
                     planner->setProblemDefinition(qs[next]->pdef);
                 }
+                else if (how == "set-only")
+                {
+                    planner->setProblemDefinition(qs[next]->pdef);
+                    res.probes["bare-setProblemDefinition(roadmap-planners)"]++;
+                }
                 else
                 {
                     planner->clear();
                     if (k == "newquery")
                         planner->setProblemDefinition(qs[next]->pdef);
                 }
-                if (how != "clearquery-then-set")
+                if (how != "clearquery-then-set" && how != "set-only")
                 {
                     ob::PlannerData d(c.w->si);
                     planner->getPlannerData(d);
@@ -1772,7 +1799,7 @@ sim::CaseResult PlanSim::run(const sim::Options &o, const Json &plan)
                 // (clearQuery() keeps the roadmap by design - "should retain all datastructures generated from previous
                 // queries that can be used to help solve the next query" - so the old end points may legitimately be
                 // vertices of later paths; the never-returns-states-of-the-previous-query clause is about clear())
-                if (k == "newquery" && next != cur && how != "clearquery-then-set")
+                if (k == "newquery" && next != cur && how != "clearquery-then-set" && how != "set-only")
                 {
                     // end points of the query being left, unless the new query shares them
                     auto &oldq = *qs[cur];
@@ -1794,6 +1821,8 @@ sim::CaseResult PlanSim::run(const sim::Options &o, const Json &plan)
                             foreign.push_back(s.get());
                     qs[next]->pdef->clearSolutionPaths();
                 }
+                if (how == "set-only" && next != cur)
+                    qs[next]->pdef->clearSolutionPaths();
                 cur = next;
                 freshQuery = true;
             }
